@@ -153,7 +153,10 @@ Definition spec_session_ok (b : bstr) (r : val) : bool :=
           && (if str_eqb e (lit "fatal") || str_eqb e (lit "internal")
               then negb (is_nil ls) && negb (str_eqb (hd [] (split_on BEL (last ls []))) [48])
               else true)
-          && (if cmp_image b then zip_check (install_claim_ok c w (parse_image img)) rqs ls else true)
+          && (if cmp_image b && forallb (fun rq => negb (str_eqb (fst rq) (lit "c32env"))) rqs
+              (* (sessions in which the ebuild changes the image between requests are judged per
+                 request by the Python oracle on per-request snapshots, not on the final image) *)
+              then zip_check (install_claim_ok c w (parse_image img)) rqs ls else true)
           && match rqs, ls with
              | rq :: _, l :: _ => if clean_first c w rq then str_eqb (hd [] (split_on BEL l)) [48] else true
              | _, _ => true
